@@ -61,6 +61,16 @@ static void owner_service(struct owner *o)
     }
 }
 
+/* a chosen number of single event-loop turns on one socket (the control descriptors are looked at on every fifth) */
+static void owner_turns(struct owner *o, struct xcm_socket *s, int turns)
+{
+    unsigned char b[64];
+    for (int k = 0; k < turns; k++) {
+        if (s == o->s[2]) { SCX("xcm_accept", 2); struct xcm_socket *x = xcm_accept(s); if (x) xcm_close(x); vs_leave(); }
+        else { SCX("xcm_receive", 0); xcm_receive(s, b, sizeof b); vs_leave(); }
+    }
+}
+
 static const unsigned char *key_body; static size_t key_body_len;     /* a slice of the base64 body of the private key */
 static void scan_for_key(const void *buf, size_t len, const char *where)
 {
@@ -280,6 +290,34 @@ static void one_case(long idx, void *arg)
             if (n > 0) { scan_for_key(m, (size_t)n, "raw"); if (n == (long)sizeof *m && m->type == ctl_proto_type_get_attr_cfm && os) vobs("malformed_request_answered", 1); }
             if (vrnd_p(&r, 50)) { vctl_send_get(fd, "xcm.type"); raw_wait_reply(fd, &ow, m, 30); }
             close(fd);
+        } else if (act < 92 && os) {
+            /* session slots are reused: A and B are open, B has a request in flight, A leaves, C arrives - C must get the answer to its own request */
+            int fa = -1, fb = -1, fc = -1;
+            for (int t = 0; t < 50 && fa < 0; t++) { fa = vctl_connect_path(path); if (fa < 0) owner_service(&ow); }
+            owner_service(&ow);
+            for (int t = 0; t < 50 && fb < 0; t++) { fb = vctl_connect_path(path); if (fb < 0) owner_service(&ow); }
+            owner_service(&ow); owner_service(&ow);
+            if (fa >= 0 && fb >= 0) {
+                vctl_send_get(fb, "xcm.transport");
+                owner_turns(&ow, os, 1 + (int)vrnd_n(&r, 12));
+                close(fa); fa = -1;
+                owner_turns(&ow, os, (int)vrnd_n(&r, 12));
+                for (int t = 0; t < 50 && fc < 0; t++) { fc = vctl_connect_path(path); if (fc < 0) owner_turns(&ow, os, 5); }
+                if (fc >= 0) {
+                    owner_turns(&ow, os, (int)vrnd_n(&r, 12));
+                    vctl_send_get(fc, "xcm.type");
+                    long n = raw_wait_reply(fc, &ow, m, 600);
+                    if (n > 0) check_get_reply(os, "xcm.type", m, n, "raw-after-slot-reuse"); else if (n == 0) cv("no-reply", "after-slot-reuse", "a session opened after another one had left got no reply to its first request");
+                    if (n > 0 && m->type == ctl_proto_type_get_attr_cfm && strcmp(m->get_attr_cfm.attr.str_value, "connection") && strcmp(m->get_attr_cfm.attr.str_value, "server")) cv("reply-of-another-session", "after-slot-reuse", "a new session asked for xcm.type and was told \"%.40s\"", m->get_attr_cfm.attr.str_value);
+                    /* and nothing unsolicited follows */
+                    for (int i = 0; i < 6; i++) owner_service(&ow);
+                    long extra = vctl_recv(fc, m);
+                    if (extra > 0) cv("unsolicited-reply", "after-slot-reuse", "a session that made one request received a second message (%ld bytes)", extra);
+                    vobs("slot_reuse_sessions", 1);
+                }
+            }
+            if (fa >= 0) close(fa); if (fb >= 0) close(fb); if (fc >= 0) close(fc);
+            for (int i = 0; i < 10; i++) owner_service(&ow);
         } else {
             /* many sessions at once (the limit is two), some leave before the reply */
             int sfd[5]; int ns = 3 + (int)vrnd_n(&r, 3);
